@@ -820,4 +820,103 @@ def pySqrtFrac (n m : Nat) : Nat × Nat :=
 def pySd (xs : List Rat) : Rat :=
   ((pySqrtFrac (variance xs).num.toNat (variance xs).den).1 : Rat) / ((pySqrtFrac (variance xs).num.toNat (variance xs).den).2 : Rat)
 
+/-! ### phase 5 — quartile ranks in natural-number arithmetic -/
+
+/-- the value `percentile` returns at a quarter `q/4` (`q` = 1, 3) of sorted data, said with natural-number rank arithmetic
+only: `k = q·(n−1)`, rank `k / 4`, remainder `k % 4`; remainder 0 → the value at the rank, otherwise the two neighbours
+weighted by `1 − r/4` and `r/4` (`percentile_quarter`) -/
+def quarterAt (s : List Rat) (q : Nat) : Option Rat :=
+  let k := q * (s.length - 1)
+  if k % 4 = 0 then s[k / 4]?
+  else match s[k / 4]?, s[k / 4 + 1]? with
+    | some a, some b => some ((1 - ((k % 4 : Nat) : Rat) / 4) * a + ((k % 4 : Nat) : Rat) / 4 * b)
+    | _, _ => none
+
+/-! ### phase 5 — the statistic bodies as expression programs (extracted from the Python source by the harness) -/
+
+/-- arithmetic expressions over one list `values`: literals, (normalised) local names, `len(values)`, `sum(values)`,
+`values[e]`, `+ - * /`, `int(e)` -/
+inductive PExpr where
+  | lit (q : Rat) | var (x : String) | lenV | sumV
+  | idx (i : PExpr)
+  | add (a b : PExpr) | sub (a b : PExpr) | mul (a b : PExpr) | div (a b : PExpr)
+  | toInt (a : PExpr)
+  deriving DecidableEq, Repr
+
+/-- Python list indexing with an integral index: `values[k]`, `values[-k]` (`none` = `IndexError`) -/
+def pyIndex (s : List Rat) (r : Rat) : Option Rat :=
+  if r < 0 then (if (-r).floor.toNat ≤ s.length then s[s.length - (-r).floor.toNat]? else none) else s[r.floor.toNat]?
+
+/-- Python `int(x)`: truncation towards zero -/
+def pyInt (r : Rat) : Rat := if 0 ≤ r then (r.floor : Rat) else -(((-r).floor : Int) : Rat)
+
+def PExpr.eval (env : List (String × Rat)) (s : List Rat) : PExpr → Option Rat
+  | .lit q => some q
+  | .var x => env.lookup x
+  | .lenV => some (s.length : Rat)
+  | .sumV => some (sumL s)
+  | .idx i => (eval env s i).bind (pyIndex s)
+  | .add a b => (eval env s a).bind (fun x => (eval env s b).map (fun y => x + y))
+  | .sub a b => (eval env s a).bind (fun x => (eval env s b).map (fun y => x - y))
+  | .mul a b => (eval env s a).bind (fun x => (eval env s b).map (fun y => x * y))
+  | .div a b => (eval env s a).bind (fun x => (eval env s b).bind (fun y => if y = 0 then none else some (x / y)))
+  | .toInt a => (eval env s a).map pyInt
+
+/-- the unweighted body of `coba.statistics.percentile` / `_percentile`: the three early returns and the assignments
+`i = …; I = …; w = …` with the two returned expressions.  Names: `$p` the percentile, `%0 %1 %2` the locals in order of assignment -/
+structure PctProg where
+  single : PExpr
+  atZero : PExpr
+  atOne : PExpr
+  i : PExpr
+  I : PExpr
+  exact : PExpr
+  w : PExpr
+  interp : PExpr
+  deriving DecidableEq, Repr
+
+def PctProg.run (g : PctProg) (s : List Rat) (p : Rat) : Option Rat :=
+  if s.length = 1 then g.single.eval [] s
+  else if p = 0 then g.atZero.eval [] s
+  else if p = 1 then g.atOne.eval [] s
+  else (g.i.eval [("$p", p)] s).bind (fun i => (g.I.eval [("%0", i), ("$p", p)] s).bind (fun I =>
+    if i = I then g.exact.eval [("%1", I), ("%0", i), ("$p", p)] s
+    else (g.w.eval [("%1", I), ("%0", i), ("$p", p)] s).bind (fun w => g.interp.eval [("%2", w), ("%1", I), ("%0", i), ("$p", p)] s)))
+
+/-- the program the model's `percentile` is (`percentile_program`) -/
+def pctProg : PctProg :=
+  { single := .idx (.lit 0), atZero := .idx (.lit 0), atOne := .idx (.lit (-1)),
+    i := .mul (.var "$p") (.sub .lenV (.lit 1)),
+    I := .toInt (.var "%0"),
+    exact := .idx (.var "%1"),
+    w := .sub (.var "%0") (.var "%1"),
+    interp := .add (.mul (.sub (.lit 1) (.var "%2")) (.idx (.var "%1"))) (.mul (.var "%2") (.idx (.add (.var "%1") (.lit 1)))) }
+
+def optAll : List (Option Rat) → Option (List Rat)
+  | [] => some []
+  | none :: _ => none
+  | some a :: l => (optAll l).map (a :: ·)
+
+/-- the body of `coba.statistics.iqr`: `if len(values) <= thr: return small`, the percentiles asked of the sorted values, the
+(normalised) names they are bound to and the returned expression -/
+structure IqrProg where
+  thr : Nat
+  small : Rat
+  ps : List Rat
+  names : List String
+  ret : PExpr
+  deriving DecidableEq, Repr
+
+def IqrProg.run (g : IqrProg) (xs : List Rat) : Option Rat :=
+  if xs.length ≤ g.thr then some g.small
+  else (optAll (g.ps.map (percentile (isort xs)))).bind (fun vs => g.ret.eval (g.names.zip vs) [])
+
+def iqrProg : IqrProg := ⟨1, 0, [1 / 4, 3 / 4], ["%0", "%1"], .sub (.var "%1") (.var "%0")⟩
+
+/-- `(x + shift) * scale` — the expression all three application loops of `Scale.filter` assign -/
+def applyExpr : PExpr := .mul (.add (.var "x") (.var "shift")) (.var "scale")
+
+/-- `sum(values)/len(values)` — `Impute._get_imputation` for `"mean"` -/
+def meanExpr : PExpr := .div .sumV .lenV
+
 end Coba.C11
